@@ -37,6 +37,8 @@ import Driver.CRules
 import Driver.C02T
 import Driver.Bridge
 import Driver.AstT
+import Driver.ATree
+import Driver.SViable
 /-!
 Line-protocol driver `jsight-model` (DESIGN.md §12). One request per line on stdin, one reply per
 line on stdout. Core Lean only: nothing imported here may import Mathlib (the executable would
@@ -221,6 +223,7 @@ def handle (line : String) : String :=
   | "skey" :: r => Drv.Keys.skey r
   | "ekey" :: r => Drv.Keys.ekey r
   | "skeys" :: r => Drv.Keys.skeys r
+  | "sviable" :: r => Drv.SViable.handle r
   | "stok" :: r => Drv.C14Tok.handle r
   | "stoke" :: r => Drv.C14Tok.handleE r
   | "stokx" :: r => Drv.C14Tok.handleX r
@@ -239,6 +242,7 @@ def handle (line : String) : String :=
   | "load" :: r => DLoad.handle (r.headD "")
   | "astt" :: r => Drv.AstT.handle r
   | "loadv" :: r => DLoadV.handle (r.headD "")
+  | "atree" :: _ => Drv.ATreeD.handle line
   | "omap" :: _ => DOMap.handle (restOf line)
   | "semn" :: _ => DSemN.handle (restOf line)
   | "sem" :: _ => DSem.handle (restOf line)
